@@ -65,7 +65,7 @@ def body_factory(tier, seed):
 
 def run(rep, tier, seed):
     return C.standard_run(rep, PROP, ["Model/CaseVerdict.vo", "Model/CaseDispatch.vo", "Model/CaseHistory.vo"],
-                          body_factory(tier, seed), rule=(
+                          [body_factory(tier, seed + 1000 * i) for i in range(3 if tier == "thorough" else 1)], rule=(
         "for every one of the 206 (version, direction, action) schemas: valid instances (all / only required / each optional "
         "alone / falsy / boundary lengths and counts / alternative values), one instance per constraint occurrence violating "
         "exactly it (plus null-for-value and 2-3-fold combinations), and the same payloads under the other version's schema; "
